@@ -9,6 +9,7 @@ import (
 	"sort"
 
 	"github.com/frankkopp/FrankyGo/internal/config"
+	"github.com/frankkopp/FrankyGo/internal/uci"
 )
 
 // The engine keeps its configuration in process-global variables. The
@@ -121,4 +122,31 @@ func init() {
 	}
 }
 
+// InitHarness prepares a process (worker or driver) for generating and
+// running scenarios: muted engine, hooks, validated corpus and the engine's
+// own option list (the generators draw from it, so every process that calls
+// Generate must have it).
+func InitHarness() error {
+	MuteEngine()
+	InstallHooks()
+	if err := ValidateCorpus(); err != nil {
+		return err
+	}
+	if err := ResetEngineGlobals(nil); err != nil {
+		return err
+	}
+	EngineOptions = ParseUciOptions(uci.NewUciHandler().Command("uci"))
+	if len(EngineOptions) == 0 {
+		return fmt.Errorf("engine announced no options")
+	}
+	return nil
+}
+
 func setTTSize(mb int) { config.Settings.Search.TTSize = mb }
+
+func setBook(dir, file, format string) {
+	config.Settings.Search.UseBook = true
+	config.Settings.Search.BookPath = dir
+	config.Settings.Search.BookFile = file
+	config.Settings.Search.BookFormat = format
+}
